@@ -102,9 +102,71 @@ fn tampered(c: &Corpus) -> Vec<(String, Vec<u8>)> {
     v
 }
 
+/// Position in the chunk sequence at the byte boundaries of the counter: after B authentic one-byte chunks
+/// (B = 2^8, 2^16; thorough also 2^20) the only record accepted next is the one sealed for position B; records of
+/// the same file sealed for other positions (replays of early chunks, positions that agree with B in the low 8, 16
+/// or 24 bits, neighbours) must be refused with exactly the first B bytes released.
+fn counter_boundaries(rep: &Report) {
+    use rayon::prelude::*;
+    let key = derive32(rep.seed, "c04-counter-key");
+    let aad: Vec<u8> = vec![];
+    let bounds: Vec<u64> = rep.tier.pick(vec![1 << 8, 1 << 16], vec![1 << 8, 1 << 16, 1 << 20]);
+    fn pat(i: u64) -> u8 {
+        (i as u8).wrapping_mul(7) ^ ((i >> 8) as u8) ^ ((i >> 16) as u8).wrapping_mul(3)
+    }
+    for &b in &bounds {
+        let mut base = Vec::with_capacity(b as usize * 33);
+        for i in 0..b {
+            base.extend_from_slice(&r::seal_conforming(&key, &aad, i, false, &[pat(i)]).bytes());
+        }
+        let want: Vec<u8> = (0..b).map(pat).collect();
+        let sub = Subject::TinyDec { key: hx(&key), aad: hx(&aad), cs: 1 };
+        let mut pos: Vec<u64> = vec![0, 1, 2, b - 1, b + 1, b + 2, b >> 8, b << 8, b + (1 << 32), 1 << 32, (1 << 32) - 1, u64::MAX, b ^ 1];
+        for k in [8u32, 16, 24, 32, 40, 48, 56] {
+            pos.push(b & ((1u64 << k) - 1));
+            pos.push(b + (1u64 << k));
+            pos.push(b.swap_bytes() >> k);
+        }
+        pos.sort();
+        pos.dedup();
+        pos.retain(|&n| n != b);
+        let mut cands: Vec<(String, Vec<u8>, bool)> = vec![];
+        // the authentic continuation first: accepted, B+1 bytes
+        cands.push(("authentic final record at position B".into(), r::seal_conforming(&key, &aad, b, true, &[pat(b)]).bytes(), true));
+        for &n in &pos {
+            for last in [false, true] {
+                let f = if last { 1 } else { 0 };
+                // the record as the writer would have produced it at position n (its counter field says n) ...
+                cands.push((format!("record sealed for position {} (counter field {}) last={}", n, n, last), r::seal_record(&key, n, &aad, f, 1, n, f, 1, &[pat(n)]).bytes(), false));
+                // ... and the same with the counter field rewritten to B
+                cands.push((format!("record sealed for position {} (counter field {}) last={}", n, b, last), r::seal_record(&key, n, &aad, f, 1, b, f, 1, &[pat(n)]).bytes(), false));
+            }
+        }
+        cands.par_iter().for_each(|(what, rec, ok)| {
+            let mut x = base.clone();
+            x.extend_from_slice(rec);
+            let (res, out) = run_plain(&sub, &x);
+            rep.eval(1);
+            rep.nontrivial(&[b"c04-counter".as_ref(), &b.to_le_bytes(), what.as_bytes()].concat());
+            let case = json!({"kind":"counter-boundary","b":b,"what":what});
+            if *ok {
+                let mut w = want.clone();
+                w.push(pat(b));
+                if !res.is_ok() || out != w {
+                    rep.violation("C04/counter-boundary", case, format!("after {} authentic one-byte chunks the {} is not accepted: {} with {} bytes released", b, what, res.brief(), out.len()));
+                }
+            } else if res.is_ok() || out != want {
+                rep.violation("C04/counter-boundary", case, format!("after {} authentic one-byte chunks a {} is taken as the next chunk: {} with {} bytes released (authentic prefix is {} bytes)", b, what, res.brief(), out.len(), b));
+            }
+        });
+    }
+    rep.extra("counter_boundaries", json!(bounds));
+}
+
 pub fn run(rep: &'static Report) {
     rep.set_rule("E-GRAPH: every state of the C03 edit graphs is decrypted by the real code into a recording sink and the write log is checked (each written range is authentic plaintext of chunks whose whole record has already been consumed and is authentic in place; Ok only on complete authentic input). E-ENV: decryption of authentic and tampered files under every fault at every call index and bounded short reads/writes, same predicate on the offered buffers. distinct_nontrivial counts unique graph states + minted words + distinct faulty executions");
     rep.rule_add("CLI level incl. a stdout reader that leaves after 0/1/4096 bytes.");
+    rep.rule_add("Counter boundaries: after 2^8 / 2^16 (thorough 2^20) authentic one-byte chunks only the record sealed for that position is accepted; records sealed for ~60 other positions are refused with exactly the authentic prefix released.");
     rep.assume("whether the final chunk is written before a trailing-data error is deliberately not constrained (both orders satisfy the statement)");
     rep.assume("authentic corpus files are written by REF; forgery resistance of the AEAD is assumed");
     graph::run_all_graphs(rep, Which::C04);
@@ -147,6 +209,7 @@ pub fn run(rep: &'static Report) {
     rep.eval(execs.load(Ordering::Relaxed));
     rep.extra("env_fault_executions", json!(execs.load(Ordering::Relaxed)));
     rep.extra("env_fault_inputs", json!(items.len()));
+    counter_boundaries(rep);
     cli_level(rep);
     rep.add_distinct(rep.states.load(Ordering::Relaxed));
     rep.sample(json!({"graph":"key","state":"A with chunk 1 body bit flipped","expect":"exactly chunk 0 (2 bytes) written, after 198 source bytes were consumed; then Err"}));
@@ -192,20 +255,25 @@ fn cli_level(rep: &Report) {
             ("trailing-byte", tr, vec![p[..2 * CS].to_vec(), p.clone()]),
         ]
     };
-    let mut jobs: Vec<(String, Vec<u8>, Vec<Vec<u8>>, Vec<String>, String, bool, bool)> = vec![];
+    let mut jobs: Vec<(String, Vec<u8>, Vec<Vec<u8>>, Vec<String>, String, bool, bool, bool)> = vec![];
     for (vn, bytes, alts) in variants(&f, 132) {
         for (kn, kr) in [("sender-known", &kr_known), ("sender-unknown", &kr_unknown)] {
             for to_stdout in [false, true] {
-                jobs.push((format!("decrypt/{}/{}/{}", vn, kn, if to_stdout { "stdout" } else { "-o" }), bytes.clone(), alts.clone(), vec!["decrypt".into(), "in.ktl".into(), "-t".into(), "bob".into(), "-k".into(), "kr.txt".into(), "--env-pass".into()], kr.clone(), to_stdout, vn == "authentic"));
+                jobs.push((format!("decrypt/{}/{}/{}", vn, kn, if to_stdout { "stdout" } else { "-o" }), bytes.clone(), alts.clone(), vec!["decrypt".into(), "in.ktl".into(), "-t".into(), "bob".into(), "-k".into(), "kr.txt".into(), "--env-pass".into()], kr.clone(), to_stdout, vn == "authentic", false));
             }
+        }
+        // the same at a terminal: the password is typed (and typed again whenever it is asked for again)
+        for to_stdout in [false, true] {
+            jobs.push((format!("decrypt/{}/sender-known/{}/typed", vn, if to_stdout { "stdout" } else { "-o" }), bytes.clone(), alts.clone(), vec!["decrypt".into(), "in.ktl".into(), "-t".into(), "bob".into(), "-k".into(), "kr.txt".into()], kr_known.clone(), to_stdout, vn == "authentic", true));
         }
     }
     for (vn, bytes, alts) in variants(&q, 36) {
         for to_stdout in [false, true] {
-            jobs.push((format!("pass-decrypt/{}/{}", vn, if to_stdout { "stdout" } else { "-o" }), bytes.clone(), alts.clone(), vec!["password".into(), "decrypt".into(), "in.ktl".into(), "--env-pass".into()], String::new(), to_stdout, vn == "authentic"));
+            jobs.push((format!("pass-decrypt/{}/{}", vn, if to_stdout { "stdout" } else { "-o" }), bytes.clone(), alts.clone(), vec!["password".into(), "decrypt".into(), "in.ktl".into(), "--env-pass".into()], String::new(), to_stdout, vn == "authentic", false));
+            jobs.push((format!("pass-decrypt/{}/{}/typed", vn, if to_stdout { "stdout" } else { "-o" }), bytes.clone(), alts.clone(), vec!["password".into(), "decrypt".into(), "in.ktl".into()], String::new(), to_stdout, vn == "authentic", true));
         }
     }
-    jobs.par_iter().for_each(|(name, bytes, alts, args, kr, to_stdout, should_succeed)| {
+    jobs.par_iter().for_each(|(name, bytes, alts, args, kr, to_stdout, should_succeed, typed)| {
         rep.eval(1);
         rep.nontrivial(format!("cli-{}", name).as_bytes());
         let attempt = || -> Result<(), String> {
@@ -217,12 +285,23 @@ fn cli_level(rep: &Report) {
                 a.extend_from_slice(&["-o", "out.bin"]);
             }
             let pw = if args[0] == "decrypt" { "bobpw" } else { "filepw" };
-            let out = proc::run(&Cmd::new(&a).env("KESTREL_PASSWORD", pw), &sc.0);
-            out.well_behaved()?;
-            if out.ok() != *should_succeed {
-                return Err(format!("exit status {:?} for {}", out.code, name));
+            let mut cmd = Cmd::new(&a);
+            if *typed {
+                cmd.pty = Some(proc::PtySpec { typed: format!("{}\n{}\n{}\n", pw, pw, pw).into_bytes(), controlling: false, stdin_is_tty: true, stdout_is_tty: false });
+            } else {
+                cmd = cmd.env("KESTREL_PASSWORD", pw);
             }
+            let out = proc::run(&cmd, &sc.0);
             let released: Vec<u8> = if *to_stdout { out.stdout.clone() } else { sc.read("out.bin").unwrap_or_default() };
+            // a program that asks for the password a fourth time waits for a user who has stopped typing: that wait is the
+            // wiring's, not a verdict; what it had released by then is judged below like any other run
+            let waiting_for_more_typing = *typed && out.timed_out;
+            if !waiting_for_more_typing {
+                out.well_behaved()?;
+                if out.ok() != *should_succeed {
+                    return Err(format!("exit status {:?} for {}", out.code, name));
+                }
+            }
             if !alts.iter().any(|x| *x == released) {
                 let is_prefix = p.starts_with(&released);
                 return Err(format!(
@@ -291,6 +370,11 @@ pub fn replay(rep: &'static Report, case: &Value) {
     if case["kind"] == "cli" {
         println!("  re-running the CLI-level part of C04");
         cli_level(rep);
+        return;
+    }
+    if case["kind"] == "counter-boundary" {
+        println!("  re-running the counter-boundary part of C04");
+        counter_boundaries(rep);
         return;
     }
     if !case["env_case"].is_null() {
